@@ -12,6 +12,9 @@ pub const PREFIX: &str = "/* \u{e9}\u{1F609} */ ";
 /// A program laid out as files, with its identifier occurrences in byte offsets of those
 /// files and the reference binding relation.
 pub struct Layout {
+    /// Sub-directory of the scratch directory that is handed to the server as the workspace
+    /// folder (files whose name starts with `../` then lie outside the folder).
+    pub folder: Option<&'static str>,
     pub texts: Vec<(String, String)>,
     pub occs: Vec<Occ>,
     pub constructs: Vec<(usize, usize, usize)>,
@@ -22,13 +25,122 @@ fn remap(text: &str, o: usize) -> usize {
     PREFIX.len() + o + text[..o].matches('\n').count()
 }
 
-/// `variant` 0: as printed; 1: every module prefixed with a multi-byte block comment and
-/// with CRLF line ends.
+/// Applies `f` to every identifier of a program (declaration names, parameters, rec binders,
+/// import qualifiers, variable and application names and qualifiers; not property names).
+pub fn rename_identifiers(p: &Program, f: &dyn Fn(&str) -> String) -> Program {
+    fn walk(v: &mut Value, f: &dyn Fn(&str) -> String) {
+        let ren = |x: &mut Value, f: &dyn Fn(&str) -> String| {
+            if let Some(s) = x.as_str() {
+                *x = Value::String(f(s));
+            }
+        };
+        match v {
+            Value::Object(m) => {
+                for (k, x) in m.iter_mut() {
+                    match k.as_str() {
+                        "Var" | "App" => {
+                            if let Some(a) = x.as_array_mut() {
+                                if a.len() >= 2 && a[1].is_string() {
+                                    ren(&mut a[0], f);
+                                    ren(&mut a[1], f);
+                                }
+                            }
+                        }
+                        "Rec" => {
+                            if let Some(a) = x.as_array_mut() {
+                                if !a.is_empty() {
+                                    ren(&mut a[0], f);
+                                }
+                            }
+                        }
+                        "Use" => {
+                            if let Some(a) = x.as_array_mut() {
+                                if a.len() == 2 {
+                                    ren(&mut a[1], f);
+                                }
+                            }
+                        }
+                        "Let" => {
+                            if let Some(o) = x.as_object_mut() {
+                                if let Some(n) = o.get_mut("name") {
+                                    ren(n, f);
+                                }
+                                if let Some(ps) = o.get_mut("params").and_then(|p| p.as_array_mut()) {
+                                    for q in ps.iter_mut() {
+                                        ren(q, f);
+                                    }
+                                }
+                            }
+                        }
+                        _ => {}
+                    }
+                    walk(x, f);
+                }
+            }
+            Value::Array(a) => {
+                for x in a.iter_mut() {
+                    walk(x, f);
+                }
+            }
+            _ => {}
+        }
+    }
+    let mut v = serde_json::to_value(p).expect("program to json");
+    walk(&mut v, f);
+    serde_json::from_value(v).expect("program from json")
+}
+
+/// Variant 2 applies to programs of several modules in one directory whose main module
+/// imports by plain file names: every other module then lies outside the workspace folder.
+pub fn outside_applicable(p: &Program) -> bool {
+    p.modules.len() > 1
+        && p.modules.iter().all(|m| !m.name.contains('/'))
+        && p.modules.iter().all(|m| m.stmts.iter().all(|s| !matches!(s, Stmt::Use(path, _) if path.contains('/'))))
+}
+
+/// The layouts in which a program is swept.
+pub fn variants_of(p: &Program) -> Vec<usize> {
+    if outside_applicable(p) {
+        vec![0, 1, 2]
+    } else {
+        vec![0, 1]
+    }
+}
+
+/// `variant` 0: as printed; 1: every identifier spelled with `-` and `$` inside, every module
+/// prefixed with a multi-byte block comment and with CRLF line ends; 2: the workspace folder
+/// holds only the main module, the others lie in a sibling directory and are imported as
+/// `../shared/<file>`.
 pub fn layout(p: &Program, variant: usize) -> Layout {
+    let renamed;
+    let p = match variant {
+        1 => {
+            renamed = rename_identifiers(p, &|n| if n == "concat" { n.to_owned() } else { format!("{n}-k$9") });
+            &renamed
+        }
+        2 => {
+            let mut q = p.clone();
+            for (i, m) in q.modules.iter_mut().enumerate() {
+                if i > 0 {
+                    m.name = format!("../shared/{}", m.name);
+                } else {
+                    for s in m.stmts.iter_mut() {
+                        if let Stmt::Use(path, _) = s {
+                            *path = format!("../shared/{path}");
+                        }
+                    }
+                }
+            }
+            renamed = q;
+            &renamed
+        }
+        _ => p,
+    };
     let printed = print(p);
     let reso = refsem::resolve(p, &printed);
-    if variant == 0 {
+    if variant != 1 {
         return Layout {
+            folder: if variant == 2 { Some("app") } else { None },
             texts: printed.texts.clone(),
             occs: printed.occs.clone(),
             constructs: printed.constructs.clone(),
@@ -62,6 +174,7 @@ pub fn layout(p: &Program, variant: usize) -> Layout {
         })
         .collect();
     Layout {
+        folder: None,
         texts,
         occs,
         constructs,
@@ -80,6 +193,37 @@ pub enum At {
 }
 
 impl Layout {
+    /// Creates the files of the layout in a scratch directory and starts the real server on
+    /// its workspace folder.
+    pub fn start(&self) -> Result<(crate::lspdrv::TempWorkspace, crate::lspdrv::LspServer), (String, String)> {
+        use crate::lspdrv::{LspServer, TempWorkspace, OAL_TOML};
+        let mut files: Vec<(String, &str)> = Vec::new();
+        match self.folder {
+            None => {
+                for (n, t) in self.texts.iter() {
+                    files.push((n.clone(), t.as_str()));
+                }
+            }
+            Some(dir) => {
+                files.push((format!("{dir}/oal.toml"), OAL_TOML));
+                for (n, t) in self.texts.iter() {
+                    match n.strip_prefix("../") {
+                        Some(outside) => files.push((outside.to_owned(), t.as_str())),
+                        None => files.push((format!("{dir}/{n}"), t.as_str())),
+                    }
+                }
+            }
+        }
+        let refs: Vec<(&str, &str)> = files.iter().map(|(n, t)| (n.as_str(), *t)).collect();
+        let ws = TempWorkspace::new(&refs).map_err(|e| ("harness: workspace".to_owned(), e.to_string()))?;
+        let folder = match self.folder {
+            None => ws.path().to_owned(),
+            Some(dir) => ws.path().join(dir),
+        };
+        let srv = LspServer::start(&folder).map_err(|e| ("harness: cannot start oal-lsp".to_owned(), e.to_string()))?;
+        Ok((ws, srv))
+    }
+
     pub fn module_index(&self, file: &str) -> Option<usize> {
         self.texts.iter().position(|(n, _)| n == file)
     }
